@@ -572,6 +572,14 @@ def gen(ctx):
                          f"E2E_undispatched: {m2.group(1) if m2 else '?'} (every fixed-layout bound definition)")
     if not ok:
         ctx.hints.append({"kind": "tables", "diag": "OblE2E.v: " + " ".join(out.split())[-800:]})
+    ok2, out2 = G.compile_template("OblE2Efast", deps=("OblC01", "OblC08", "OblE2E"))
+    for nm in G.theorem_names("OblE2Efast"):
+        ctx.extra_obligations.append({"name": f"OblE2Efast.v:{nm}", "ok": ok2, "detail": out2[-800:] if not ok2 else ""})
+    mf = re.search(r"\(77777,\s*(\d+)%nat,\s*(\d+)%nat,\s*(\d+)%nat,\s*(\d+)%nat,\s*(\d+)%nat\)", " ".join(out2.split()))
+    if mf:
+        ctx.notes.append(f"fast-packet end-to-end theorems (frame by frame): E2E_fast_any_entry / E2E_fast_undispatched cover {mf.group(2)} of {mf.group(1)} fixed-layout bound definitions (fast-packet PGNs; {mf.group(3)} by E2E_fast_any_entry alone); {mf.group(4)} are single-frame (OblE2E), {mf.group(5)} without usable is_fast function")
+    if not ok2:
+        ctx.hints.append({"kind": "tables", "diag": "OblE2Efast.v: " + " ".join(out2.split())[-800:]})
 
 
 # ------------------------------------------------------------------ correspondence
